@@ -33,6 +33,10 @@ class ConcreteCtx:
             return bytearray(n)
         return bytearray.fromhex(self.inputs[name])
 
+    def str(self, name, n):
+        v = self.inputs.get(name)
+        return v if v is not None else "\x00" * n
+
     def zeros(self, name, n):
         return bytearray(n)
 
